@@ -1,8 +1,11 @@
 import worldchecks
+import queuechecks
 
 CHECKS = {}
 for _p in worldchecks.CONF:
     CHECKS[_p] = worldchecks.run
+CHECKS['C04'] = queuechecks.run_c04
+CHECKS['C05'] = queuechecks.run_c05
 
 
 def replay(prop, path):
